@@ -174,6 +174,16 @@ def applyValues (m : MultiValue α) (hist : List (α × α)) (vals : List α) (c
     else if v'.min = v'.max then { m with v := v' }
     else { m with v := v', dg := some ((valueCentroids hist vals count total).foldl dgAdd (dgBase m)) }
 
+/-- MultiValue.ApplyValuesLegacy (agent Config.LegacyApplyValues): the digest is created eagerly, every value is added
+    to it even while all values are identical -/
+def applyValuesLegacy (m : MultiValue α) (hist : List (α × α)) (vals : List α) (count total : α) (host : Tag)
+    (pick hasPct : Bool) : MultiValue α :=
+  if total ≤ 0 then m
+  else
+    { m with
+      v := itemMerge m.v (tmpOfValues hist vals count total host) pick
+      dg := if hasPct then some ((valueCentroids hist vals count total).foldl dgAdd (m.dg.getD [])) else m.dg }
+
 /-- MultiValue.AddValueCounterHostPercentile (hasPct) / MultiValue.AddValueCounterHost (otherwise), as chosen by
     Shard.AddValueCounterHost -/
 def addValuePct (m : MultiValue α) (value count : α) (host : Tag) (pick hasPct : Bool) : MultiValue α :=
@@ -208,6 +218,8 @@ inductive Event (α : Type) where
   | counter (count : α) (host : Tag) (pick : Bool)
   /-- value / histogram event (metric without or with percentiles) -/
   | values (hist : List (α × α)) (vals : List α) (count : α) (host : Tag) (pick hasPct : Bool)
+  /-- value / histogram event on an agent running with LegacyApplyValues -/
+  | valuesLegacy (hist : List (α × α)) (vals : List α) (count : α) (host : Tag) (pick hasPct : Bool)
   /-- single value with a count (Shard.AddValueCounterHost, used for built-in metrics) -/
   | valuePct (value count : α) (host : Tag) (pick hasPct : Bool)
   /-- unique event -/
@@ -218,6 +230,7 @@ deriving Repr
 def Event.count : Event α → α
   | .counter c _ _ => c
   | .values hist vals c _ _ _ => defaultCount c (totalCount hist vals)
+  | .valuesLegacy hist vals c _ _ _ => defaultCount c (totalCount hist vals)
   | .valuePct _ c _ _ _ => c
   | .unique hashes c _ _ => defaultCount c ((hashes.length : Nat) : α)
 
@@ -227,6 +240,8 @@ def applyEvent (m : MultiValue α) (e : Event α) : MultiValue α :=
   | .counter c host pick => { m with v := addCounterHost m.v c host pick }
   | .values hist vals c host pick hasPct =>
       applyValues m hist vals (defaultCount c (totalCount hist vals)) (totalCount hist vals) host pick hasPct
+  | .valuesLegacy hist vals c host pick hasPct =>
+      applyValuesLegacy m hist vals (defaultCount c (totalCount hist vals)) (totalCount hist vals) host pick hasPct
   | .valuePct value c host pick hasPct => addValuePct m value c host pick hasPct
   | .unique hashes c host pick => applyUnique m hashes (defaultCount c ((hashes.length : Nat) : α)) host pick
 
